@@ -27,3 +27,7 @@ FUNCTIONS = FUNCTIONS + ['soupsieve.css_match.CSSMatch.match_range', 'soupsieve.
 SHARDS = {'match_range': 8, 'parse_value': 8, 'match_selectors': 16, 'match_nth': 4}
 
 FUNCTIONS = FUNCTIONS + [q for q in ATTRS if q not in FUNCTIONS]
+
+FUNCTIONS = FUNCTIONS + [q for q in STRUCT if q not in FUNCTIONS]
+
+FUNCTIONS = FUNCTIONS + [M + 'match_contains']
